@@ -854,6 +854,15 @@ def _quant(ip, st, args, is_all):
         if isinstance(v, LazyMap):
             yield from quant_map(ip, st, v, is_all)
             return
+        if isinstance(v, Sym) and (v.kind == "bytes" or v.kind == ("list", "int") or v.kind == ("list", "bool")):
+            # truthiness of each element of a symbolic byte string / list of ints: element != 0
+            k = tm.BoundVar(tm.fresh_name("qk"), INT)
+            e = tm.Nth(v.term, k)
+            elem = e if v.kind == ("list", "bool") else tm.Not(tm.Eq(e, tm.Int(0)))
+            rng = tm.And(tm.Le(tm.Int(0), k), tm.Lt(k, tm.Len(v.term)))
+            r = tm.ForAll([k], tm.Implies(rng, elem)) if is_all else tm.Exists([k], tm.And(rng, elem))
+            yield st, as_value("bool", r)
+            return
         raise Unsupported("all/any over %r" % (v,))
     ts = []
     for x in items:
